@@ -34,6 +34,12 @@ def cases(tier, seed):
 
     for c in grids.dedupe(_selfbound()):
         yield c
+    if tier == "thorough":
+        # richer contents (2-term guarantees, coefficients up to 2): one complete 1/400 slice per wiring, rotated by the seed
+        for w in ("casc", "share", "fb", "mix"):
+            for k, (c1, c2) in enumerate(cgrid.pairs(w, 1)):
+                if k % 400 == seed % 400:
+                    yield {"w": w, "c1": c1, "c2": c2, "fam": "level1"}
 
 
 def _selfbound():
